@@ -65,7 +65,7 @@ let hexval c =
   | _ -> failwith "bad hex"
 
 let bytes_of_hex (s : string) : bytes =
-  if s = "-" then []
+  if s = "-" || s = "=" then []     (* "=": present but empty (a non-nil zero-length slice on the Go side) *)
   else begin
     let n = String.length s / 2 in
     let rec go i acc =
@@ -250,6 +250,13 @@ let vers_of (segs0 : seg list) (ms : msg list) : string =
             then (if sg.sver = V2 && not (sg.srecs = [] && false) then "2" else if sg.srecs = [] then "1" else "1")
             else acc) "?" segs0 in v) ms)
 
+(* mirror of kvrun newHeadVer: "^v" - the format of an empty head segment the Delete created ("" when it created none) *)
+let new_head_ver (segs0 : seg list) (segs1 : seg list) : string =
+  match List.rev segs1 with
+  | hd :: _ when hd.srecs = [] && not (List.exists (fun s -> Z.eqb s.sbase hd.sbase) segs0) ->
+    if hd.sver = V2 then "^2" else "^1"
+  | _ -> ""
+
 (* mirror of kvrun rewrittenVer: format of the segment holding the survivors of the segment a Delete rewrote *)
 let rewritten_ver (segs0 : seg list) (segs1 : seg list) (ms : msg list) : string =
   match ms with
@@ -411,7 +418,7 @@ let step st (f : string array) : string list =
     let segs0 = st.s.segs in
     (match log_delete h st.s (parse_offsets (a 1)) with
      | Err e -> [err e]
-     | Ok (s', (ms, sz)) -> st.s <- s'; [Printf.sprintf "ok %s %s%s%s" (string_of_z sz) (vers_of segs0 ms) (rewritten_ver segs0 s'.segs ms) (fmt_msgs ms)])
+     | Ok (s', (ms, sz)) -> st.s <- s'; [Printf.sprintf "ok %s %s%s%s%s" (string_of_z sz) (vers_of segs0 ms) (rewritten_ver segs0 s'.segs ms) (new_head_ver segs0 s'.segs) (fmt_msgs ms)])
   | "delm" ->
     (match get_cfg st.s with
      | Err e -> [err e]
@@ -546,7 +553,24 @@ let run_hist (path : string) =
            st := fresh ();
            print_endline line
          end else begin
-           print_endline line;
+           (* a symbolic size target "S<k>d<d>": the Stat size minus Size(m) of the first k live messages, plus d *)
+           let sym = (f.(0) = "finds" || f.(0) = "trims") && Array.length f > 1 && String.length f.(1) > 0 && f.(1).[0] = 'S' in
+           let target = (if not sym then None else
+               match get_cfg !st.s, log_stat h !st.s with
+               | Ok c, Ok (s', ((_, _), size)) ->
+                 !st.s <- s';
+                 let body = String.sub f.(1) 1 (String.length f.(1) - 1) in
+                 (match String.index_opt body 'd' with
+                  | Some i ->
+                    let k = int_of_string (String.sub body 0 i) and d = int_of_string (String.sub body (i + 1) (String.length body - i - 1)) in
+                    let live = List.concat (List.map (fun sg -> sg.srecs) !st.s.segs) in
+                    let rec take n l acc = (match l with m :: r when n > 0 -> take (n - 1) r (Z.add acc (log_msg_size c m)) | _ -> acc) in
+                    Some (Z.add (Z.sub size (take k live Z0)) (z_of_int d))
+                  | None -> None)
+               | _, _ -> None) in
+           (match target with Some t -> f.(1) <- string_of_z t | None -> ());
+           print_endline (if sym then f.(0) ^ " " ^ f.(1) else line);
+           (match target with Some t -> print_endline ("= target " ^ string_of_z t) | None -> ());
            let res = (try step !st f with
                | Stack_overflow -> ["err ModelStackOverflow"]
                | Failure m -> ["err ModelFailure " ^ m]) in
@@ -680,7 +704,9 @@ let run_check (path : string) =
       chk "C03" "consume_scan" (check_consume c.a (z_of_string off) (z_of_int 7) o) r;
       (match o with
        | OOk (n, ms) -> scan_acc := !scan_acc @ ms; scan_final := Some n
-       | OErr _ -> scan_final := None)
+       | OErr _ ->
+         (* reading the log from the oldest offset to the end must succeed on an open handle *)
+         scan_final := None; chk !scan_prop "scan_ok" false r)
     | ["next"] | ["sync"] ->
       chk "C02" "next_offset" (check_next c.a (obs_of r (fun l -> z_of_string (List.hd l)))) r
     | ["get"; off] ->
@@ -784,6 +810,7 @@ let run_check (path : string) =
   let handle_result (r : string list) =
     let c = !cs in
     match !cur_op with
+    | _ when (match r with "target" :: _ -> true | _ -> false) -> ()    (* the resolved symbolic size target *)
     | "probe" :: _ ->
       (* "<subop> => <result>" *)
       let rec split acc l = (match l with
@@ -843,7 +870,12 @@ let run_check (path : string) =
               let before = vs.[2] and after = vs.[i + 1] in
               if after <> '-' then
                 chk "C17" "rewritten_version_as_configured"
-                  (after = (if c.ckeepv then before else (match c.cnewv with V1 -> '1' | V2 -> '2'))) r
+                  (after = (if c.ckeepv then before else (match c.cnewv with V1 -> '1' | V2 -> '2'))) r;
+              (* a new empty head created by the Delete is a new segment: NewSegmentsVersion *)
+              (match String.index_opt vs '^' with
+               | Some j when j + 1 < String.length vs ->
+                 chk "C17" "new_head_in_new_segments_version" (vs.[j + 1] = (match c.cnewv with V1 -> '1' | V2 -> '2')) r
+               | _ -> ())
             | _ -> ())
          | _ -> ());
         (match o with OOk (_, ms) -> ignore (apply_deleted "C12" ms r) | OErr _ -> ())
@@ -1232,7 +1264,7 @@ let run_flock (path : string) =
           | ["corrupt"; b] -> print_endline ("= " ^ step (FCorrupt (b = "1")))
           | ["tear"; b] -> print_endline ("= " ^ step (FTear (b = "1")))
           | ["rmdir"; b] -> print_endline ("= " ^ step (FRmdir (b = "1")))
-          | ["q"; h] ->
+          | ["q"; h] | ["k"; h] ->
             (match fstep !t (FPublish (nat_of_int (int_of_string h))) with
              | (_, FSkip) -> print_endline "= skip"
              | _ -> print_endline "= ok")
